@@ -795,6 +795,10 @@ def run_eval(ctx, spec):
     for sc, w in G.budget_programs():
         for fl in ("-", "DISCOURAGE_UPGRADABLE_PUBKEYTYPE"):
             wit_lines.append(f"execwit tapscript {fl} {hx(sc)} - 0 4294967295 1 {w} deny")
+    tpo = G.tap_push_orders(rng)
+    for sc in (tpo if ctx.tier == "thorough" else rng.sample(tpo, 40)):
+        wit_lines.append(f"execwit tapscript - {hx(sc)} - 0 4294967295 1 1000 deny")
+    ctx.count("eval.limit-families", "tapscript-oversized-push-order", len(tpo) if ctx.tier == "thorough" else 40)
     for _ in range(ctx.n(500, 12000)):
         st = G.init_stack(rng)
         sc = G.program(rng, True, [G.N if len(x) <= 4 else G.A for x in st])
@@ -924,7 +928,7 @@ def run_bt(ctx, bt_stream):
         tl.append(f"bttap {fl} {sc} {hexlist(st)} 0 4294967295 1 1000 ask")
     tfl = G.flag_sets(rng, 24, ["MINIMALDATA", "DISCOURAGE_UPGRADABLE_NOPS", "CHECKLOCKTIMEVERIFY", "CHECKSEQUENCEVERIFY", "NULLFAIL",
                                 "DISCOURAGE_UPGRADABLE_PUBKEYTYPE", "DISCOURAGE_OP_SUCCESS", "MINIMALIF"])
-    for _ in range(ctx.n(500, 10000)):
+    for _ in range(ctx.n(500, 5000)):
         st = G.init_stack(rng)
         sc = G.program(rng, True, [G.N if len(x) <= 4 else G.A for x in st])
         tl.append(f"bttap {rng.choice(tfl)} {hx(sc)} {hexlist(st)} 0 4294967295 1 {rng.choice([0, 49, 50, 99, 100, 1000, 100000])} ask")
@@ -937,7 +941,10 @@ def run_bt(ctx, bt_stream):
     for k, (sc, lt, seq, ver) in enumerate(G.locktime_programs(rng)):
         if k % 5 == 0:
             tl.append(f"bttap CHECKLOCKTIMEVERIFY,CHECKSEQUENCEVERIFY {hx(sc + b'\x75\x51')} - {lt} {seq} {ver} 1000 ask")
-    _sl, sw = signed_eval_lines(rng, ctx.n(150, 3000))
+    tpo = G.tap_push_orders(rng)
+    for sc in (tpo if ctx.tier == "thorough" else rng.sample(tpo, 40)):
+        tl.append(f"bttap {rng.choice(['-', 'DISCOURAGE_OP_SUCCESS'])} {hx(sc)} - 0 4294967295 1 1000 ask")
+    _sl, sw = signed_eval_lines(rng, ctx.n(150, 1500))
     for ln in sw:
         t = ln.split(" ")
         if t[1] == "tapscript":
